@@ -244,6 +244,22 @@ class Model:
         # per topology: is some decaying child the "opposite helicity" state?  Decided by the harness' OWN
         # rule (never by /repo's function: a change of that function must not re-classify the cases)
         self.opposite_isobar = [own_opposite_isobar(g[0].topology) for g in split_topologies(reaction)]
+        self.J = float(t0.initial_states[iid].particle.spin)
+        # which topology (chain) owns which coupling: needed to recognise the known axis-angle finding
+        # "relative sign of two chains flips" exactly (see classify()).  Read off unaligned one-topology models.
+        self.chain_owner = None
+        half_integer = any(abs(2 * x - round(2 * x)) < 1e-9 and int(round(2 * x)) % 2 == 1 for x in self.fspins)
+        if align == "axisangle" and self.n_topologies >= 2 and half_integer:
+            owners = []
+            per_topology = []
+            for g in split_topologies(reaction):
+                sub = ampform.get_builder(reaction_info(g, reaction.formalism)).formulate()
+                per_topology.append({str(k) for k in sub.parameter_defaults})
+            for sym in self.par_symbols:
+                own = [i for i, names in enumerate(per_topology) if str(sym) in names]
+                owners.append(own[0] if len(own) == 1 else None)
+            if all(o is not None for o in owners):
+                self.chain_owner = owners
 
     def kinematics(self, P):
         """P: (N, n, 4) -> list of arrays (one per kinematic variable)."""
@@ -256,6 +272,19 @@ class Model:
         out = self.int_fn(*[byname[s] for s in self.used_kin], *pars)
         out = np.real(np.asarray(out, dtype=complex))
         return np.broadcast_to(out, (len(kin[0]),)).copy() if out.ndim == 0 else out
+
+    def sign_flipped_parameter_sets(self, pars):
+        """All ways of flipping the sign of every coupling of a proper, non-empty subset of the chains
+        (up to an overall sign): [(subset, parameters)]."""
+        import itertools
+
+        if self.chain_owner is None:
+            return []
+        out = []
+        for r in range(1, self.n_topologies):
+            for sub in itertools.combinations(range(1, self.n_topologies), r):
+                out.append((sub, [(-v if self.chain_owner[j] in sub else v) for j, v in enumerate(pars)]))
+        return out
 
     def draw_parameters(self, rng):
         pars = []
@@ -276,16 +305,41 @@ def family_of(model, topo, align):
     return f"multi_aligned_{'dpd' if align.startswith('dpd') else align}" + ("" if model.complete else "_zonly")
 
 
-SIGNATURE = {
+SINGLE_SIGNATURE = {
     "single": "single_topology_not_invariant",
     "single_zonly": "single_topology_not_invariant_about_z",
-    "multi_unaligned_spinless": "multi_topology_unaligned_spinless_not_invariant",
-    "multi_unaligned_spinless_zonly": "multi_topology_unaligned_spinless_not_invariant_about_z",
-    "multi_aligned_axisangle": "multi_topology_axisangle_aligned_not_invariant",
-    "multi_aligned_dpd": "multi_topology_dpd_aligned_not_invariant",
-    "multi_aligned_axisangle_zonly": "multi_topology_axisangle_aligned_not_invariant_about_z",
-    "multi_aligned_dpd_zonly": "multi_topology_dpd_aligned_not_invariant_about_z",
 }
+
+
+def classify(model, fam, align, about_z, explained_by_chain_sign):
+    """Signature of ONE failing comparison.  A finding is identified by its discriminating feature, so that a
+    different violation in the same model is still reported:
+      F  multi_topology_opposite_helicity_isobar_<a>_not_invariant_off_z   some decaying child is the opposite-
+         helicity state (harness' own rule) and the rotation is not about z (known, DESIGN 7 #10 root cause)
+      F  multi_topology_axisangle_chain_relative_sign_flip   the rotated intensity EQUALS the unrotated one with
+         the sign of all couplings of a subset of the chains flipped (half-integer final-state spin: the Euler
+         angles of the Wigner rotation come from atan2 and lose the SU(2) sign)
+      F  multi_topology_dpd_spinful_initial_state_not_invariant   DPD, several topologies, initial spin > 0
+    everything else is a must-hold obligation:
+      V  multi_topology_helicity_isobars_only_<a>_not_invariant          (all isobars are helicity states)
+      V  multi_topology_opposite_helicity_isobar_<a>_not_invariant_about_z
+      V  multi_topology_dpd_spin0_initial_state_not_invariant
+    <a> = unaligned_spinless | axisangle."""
+    if fam in SINGLE_SIGNATURE:
+        return SINGLE_SIGNATURE[fam]
+    if not fam.startswith("multi_") or fam.startswith("multi_unaligned_spinful"):
+        return None
+    if align.startswith("dpd"):
+        return ("multi_topology_dpd_spinful_initial_state_not_invariant" if model.J > 0
+                else "multi_topology_dpd_spin0_initial_state_not_invariant")
+    a = "axisangle" if align == "axisangle" else "unaligned_spinless"
+    if explained_by_chain_sign:
+        return "multi_topology_axisangle_chain_relative_sign_flip"
+    if any(model.opposite_isobar):
+        return (f"multi_topology_opposite_helicity_isobar_{a}_not_invariant_about_z" if about_z
+                else f"multi_topology_opposite_helicity_isobar_{a}_not_invariant_off_z")
+    return f"multi_topology_helicity_isobars_only_{a}_not_invariant"
+
 
 # ----------------------------------------------------------------------------- one model case
 
@@ -332,9 +386,13 @@ def run_model_case(args):
     scale = [float(np.mean(np.abs(i))) for i in I0]
     res["distinct"] = int(len({float(v) for v in np.round(I0[0] / max(scale[0], 1e-300), 9)}))
     rots = rotations(rng, zonly)
-    worst = None
+    flipped0 = [[(sub, model.intensity(kin0, fp)) for sub, fp in model.sign_flipped_parameter_sets(pars)]
+                for pars in par_sets]
+    worst = {}  # signature -> (rel, k, ip, label, axis, angle, I0, Ir)
+    res["n_fail_by_signature"] = {}
     for label, axis, angle in rots:
         R = rotation_matrix(axis, angle)
+        about_z = label == "z"
         ev_r = np.array([rotate_event(P, R) for P in events])
         kin_r = model.kinematics(ev_r)
         ok = (cond0 > SIN_MIN) & (conditioning(model, kin_r) > SIN_MIN)
@@ -346,33 +404,43 @@ def run_model_case(args):
             bad_nan = ~np.isfinite(Ir) | ~np.isfinite(I0[ip])
             rel = np.where(bad_nan, np.inf, rel)
             rel = np.where(ok, rel, 0.0)
+            explained = np.zeros(len(rel), dtype=bool)
+            for _sub, If in flipped0[ip]:
+                explained |= np.abs(Ir - If) <= TOL * np.maximum(np.maximum(np.abs(If), np.abs(Ir)), 1e-3 * scale[ip])
             res["evaluations"] += int(ok.sum())
             res["n_fail"] = res.get("n_fail", 0) + int((rel > TOL).sum())
-            k = int(np.argmax(rel))
-            res["max_rel"] = max(res["max_rel"], float(rel[k]) if np.isfinite(rel[k]) else 1e300)
-            if rel[k] > TOL and (worst is None or rel[k] > worst[0]):
-                worst = (float(rel[k]) if np.isfinite(rel[k]) else 1e300, k, ip, label, axis, angle,
-                         float(I0[ip][k]), float(Ir[k]))
+            kmax = int(np.argmax(rel))
+            res["max_rel"] = max(res["max_rel"], float(rel[kmax]) if np.isfinite(rel[kmax]) else 1e300)
+            for flag in (False, True):
+                sel = (rel > TOL) & (explained == flag)
+                if not sel.any():
+                    continue
+                sig = classify(model, fam, align, about_z, flag)
+                key_sig = sig or "informative"
+                res["n_fail_by_signature"][key_sig] = res["n_fail_by_signature"].get(key_sig, 0) + int(sel.sum())
+                k = int(np.argmax(np.where(sel, rel, -1.0)))
+                r_k = float(rel[k]) if np.isfinite(rel[k]) else 1e300
+                if key_sig not in worst or r_k > worst[key_sig][0]:
+                    worst[key_sig] = (r_k, k, ip, label, axis, angle, float(I0[ip][k]), float(Ir[k]))
     if len(res["samples"]) < 1:
         res["samples"].append({"reaction": name, "topology": topo, "alignment": align, "family": fam,
                                "event": events[0].tolist(), "rotation": {"axis": rots[-1][1], "angle": rots[-1][2]},
                                "intensity": float(I0[0][0])})
-    if worst is not None and fam in SIGNATURE:
-        rel, k, ip, label, axis, angle, i0, ir = worst
-        sig = SIGNATURE[fam]
-        if fam.startswith("multi_") and not any(model.opposite_isobar):
-            # every isobar is the helicity state of its node: structurally different from models with an
-            # opposite-helicity isobar (unaligned spinless: invariant on the current tree)
-            sig = sig.replace("_not_invariant", "_helicity_isobars_only_not_invariant")
+    for sig, (rel, k, ip, label, axis, angle, i0, ir) in worst.items():
+        if sig == "informative":
+            res["informative_not_invariant"] = {"rel": rel, "rotation": label}
+            continue
         case = make_case(name, topo, align, events[k], axis, angle, model, par_sets[ip])
+        case["signature"] = sig
         res["failures"].append({
             "signature": sig,
-            "what": (f"{name} topology={topo} alignment={align} ({fam}; {model.n_topologies} topologies, final spins "
-                     f"{model.fspins}; topologies with an opposite-helicity isobar: {model.opposite_isobar}): intensity {i0:.12g} -> {ir:.12g} (rel. change {rel:.3g}) under a rotation "
-                     f"about {label} axis {axis} by {angle} rad"),
+            "what": (f"{name} topology={topo} alignment={align} ({fam}; {model.n_topologies} topologies, initial spin "
+                     f"{model.J}, final spins {model.fspins}; topologies with an opposite-helicity isobar (harness' "
+                     f"rule): {model.opposite_isobar}): intensity {i0:.12g} -> {ir:.12g} (rel. change {rel:.3g}) "
+                     f"under a rotation about {label} axis {axis} by {angle} rad; "
+                     f"{res['n_fail_by_signature'][sig]} of {res['evaluations']} comparisons of this model fall "
+                     f"under this signature"),
             "case": case})
-    elif worst is not None:
-        res["informative_not_invariant"] = {"rel": worst[0], "rotation": worst[3]}
     res["wall"] = round(time.time() - t0, 1)
     return res
 
@@ -406,7 +474,13 @@ def replay_event(case):
     ir = model.intensity(model.kinematics(Pr), pars)[0]
     rel = abs(ir - i0) / max(abs(i0), abs(ir), 1e-300)
     bad = (not np.isfinite(rel)) or rel > TOL
-    return bool(bad), f"I={i0!r} I_rot={ir!r} rel={rel:.3g}"
+    explained = False
+    for _sub, fp in model.sign_flipped_parameter_sets(pars):
+        i_f = model.intensity(model.kinematics(P), fp)[0]
+        explained |= abs(ir - i_f) <= TOL * max(abs(i_f), abs(ir), 1e-300)
+    want_flip = case.get("signature") == "multi_topology_axisangle_chain_relative_sign_flip"
+    still = bool(bad) and (bool(explained) == want_flip)
+    return still, f"I={i0!r} I_rot={ir!r} rel={rel:.3g} explained_by_chain_sign_flip={bool(explained)}"
 
 # ----------------------------------------------------------------------------- Wigner-D hypotheses
 
@@ -552,6 +626,11 @@ def plan(tier):
             if len(idx) >= 2:
                 cases.append((n, "+".join(map(str, idx)), "none"))
     cases.append(("lc_pkpi_hel", "+".join(map(str, helicity_only_subset("lc_pkpi_hel")[0])), "axisangle"))
+    # J/psi -> pi0 p p~ via N(1440)+ and N(1440)~-: both isobars contain state 0 (helicity states), the
+    # recoiling p~ / p are the opposite-helicity states of the first node and carry spin 1/2
+    if "jpsi_ppbarpi0_hel" in reactions.names():
+        cases.append(("jpsi_ppbarpi0_hel", None, "axisangle"))
+        cases += [("jpsi_ppbarpi0_hel", 0, "none"), ("jpsi_ppbarpi0_hel", 1, "none")] if tier != "thorough" else []
     # multi-topology, unaligned
     multi = ["jpsi_3pi_hel", "d0_kkk_hel"]
     if tier == "thorough":
@@ -602,7 +681,7 @@ def main():
         distinct += r["distinct"]
         skipped += r["skipped_illconditioned"]
         kinds[r["family"]] = kinds.get(r["family"], 0) + r["evaluations"]
-        table.append({k: r.get(k) for k in ("key", "family", "max_rel", "evaluations", "n_fail", "wall", "n_ops",
+        table.append({k: r.get(k) for k in ("key", "family", "max_rel", "evaluations", "n_fail", "n_fail_by_signature", "wall", "n_ops",
                                             "informative_not_invariant")})
         failures += r["failures"]
         if r["samples"] and len(samples) < 6 and r["family"] not in [s["family"] for s in samples]:
